@@ -33,7 +33,9 @@ for kind in (1, 2, 3, 4):
                  'qsbr_per_thread::on_next_epoch_deallocate is a ledger event'] + (['basic_inode_%d::init(db, inode_%d&, child_to_delete) (shrink copy routine): no lock operation (IR fact olc.copy-routines.no-locks); memory / statistics / retire effects not modelled, shrink postconditions C10/C04-seq not claimed for this class' % (CLSN[kind - 1], n)] if kind >= 3 else []))
 QS = {'RETIRE': LW['RETIRE'], 'THIS_THREAD': LW['THIS_THREAD']}
 job('olc.copy-routines.no-locks', ['C14'], 'u_olc', 'proofs/olc/rocs.c', cfgs=(BASE, DEBUG), floor=2,
-    irfacts=[('closure-free-of', copy_rx(16, 48, r'unsigned char\)'), r'^unodb::optimistic_lock::(try_|write_|check\(|inc_|dec_|write_guard::|read_critical_section::)', QS), ('closure-free-of', copy_rx(48, 256, r'unsigned char\)'), r'^unodb::optimistic_lock::(try_|write_|check\(|inc_|dec_|write_guard::|read_critical_section::)', QS)],
+    irfacts=[('closure-free-of', copy_rx(48, 16, r'std::unique_ptr<'), r'^unodb::optimistic_lock::(try_|write_|check\(|inc_|dec_|write_guard::|read_critical_section::)', QS),
+             ('closure-free-of', copy_rx(256, 48, r'std::unique_ptr<'), r'^unodb::optimistic_lock::(try_|write_|check\(|inc_|dec_|write_guard::|read_critical_section::)', QS),
+             ('closure-free-of', copy_rx(16, 48, r'unsigned char\)'), r'^unodb::optimistic_lock::(try_|write_|check\(|inc_|dec_|write_guard::|read_critical_section::)', QS), ('closure-free-of', copy_rx(48, 256, r'unsigned char\)'), r'^unodb::optimistic_lock::(try_|write_|check\(|inc_|dec_|write_guard::|read_critical_section::)', QS)],
     under_contract=['basic_inode_16::init(db, inode_48&, uint8_t), basic_inode_48::init(db, inode_256&, uint8_t): call closure free of lock primitives (static IR fact, supporting)'])
 
 # try_remove: entry + one loop iteration, with the four remove_or_choose_subtree instantiations replaced by the contract proved in olc.rocs.k1..k4
@@ -47,12 +49,13 @@ for kind in (0, 1):
 # add_or_choose_subtree: the lock-coupled insertion step (write guards parent -> node; growth to the next larger class)
 for kind in (1, 2, 3, 4):
     n = CLSN[kind]; stubs = dict(ADT); stubs.update(LW)
+    if kind in (3,): stubs['P_GROW'] = copy_rx(CLSN[kind + 1], n, r'std::unique_ptr<')
     job('olc.aocs.k%d' % kind, ['C14', 'C16', 'C10', 'C08'], 'u_olc', 'proofs/olc/aocs.c', defines=['KIND=%d' % kind, 'POL=OLC64'],
         roots=dict({'AOCS': r'unodb::detail::olc_impl_helpers::add_or_choose_subtree<[^(]*olc_inode_%d<' % n}, **({'N48_ADD': onode_rx(48) + r'add_to_nonfull\('} if kind == 3 else {})), stubs=stubs, cfgs=(BASE, DEBUG),
-        unwind={1: 19, 2: 258, 3: 258, 4: 258}[kind], unwindset_raw=SPEC_LOOPS, unwindset=({'N48_ADD': 8} if kind == 3 else None), floor=30, timeout=1800, mem_gb=20, memsafe=False, objbits=14,
+        unwind={1: 19, 2: 50, 3: 258, 4: 258}[kind], unwindset_raw=SPEC_LOOPS, unwindset=({'N48_ADD': 8} if kind == 3 else None), floor=30, timeout=1800, mem_gb=20, memsafe=False, objbits=14,
         under_contract=['olc_impl_helpers::add_or_choose_subtree<olc_inode_%d> (lock-coupled insertion step incl. write guards, growth, allocation failure)' % n],
         trusted=['sequential contracts of the optimistic_lock primitives (their concurrent semantics: C07)', 'one thread only: no claim about interleavings',
-                 'qsbr_per_thread::on_next_epoch_deallocate is a ledger event'])
+                 'qsbr_per_thread::on_next_epoch_deallocate is a ledger event'] + (['basic_inode_%d::init(db, inode_%d&, leaf, depth) (growth copy routine): no lock operation (IR fact olc.copy-routines.no-locks), takes the leaf; memory / statistics / retire effects not modelled, growth postconditions C10/C04-seq not claimed for this class' % (CLSN[kind + 1], n)] if kind in (3,) else []))
 # try_insert: entry + one loop iteration at a leaf / at an inner node, with the four add_or_choose_subtree instantiations replaced by the contract proved in olc.aocs.k1..k4
 for kind in (0, 1, 2):
     stubs = dict(ADT); stubs.update(LW); stubs['AOCS*'] = r'unodb::detail::olc_impl_helpers::add_or_choose_subtree<[^(]*olc_inode_\d+<'
